@@ -43,7 +43,8 @@ class TopocentricFrame(frames.Frame):
 
         from ..propagators.listeners import stations_listeners, Listener
 
-        listeners = kwargs.setdefault("listeners", [])
+        # Work on a copy, in order to not modify the list provided by the caller
+        listeners = kwargs["listeners"] = list(kwargs.get("listeners", []))
         events = kwargs.pop("events", None)
         event_classes = tuple()
 
